@@ -2,6 +2,6 @@
    the correspondence check.  Only the standard directives of ExtrOcamlBasic /
    ExtrOcamlZBigInt are used.  Compiled with cwd = /verif/ocaml/c10. *)
 From Coq Require Import Extraction ExtrOcamlBasic ExtrOcamlZBigInt.
-Require Import V.base.Bytes V.gen.Hagrid V.model.Transcript V.model.Session V.model.Przs.
+Require Import V.base.Bytes V.gen.Hagrid V.model.Transcript V.gen.SessionConsts V.model.Session V.model.Przs.
 Extraction Blacklist List String Nat.
 Extraction "model.ml" party_run new_context sub_context ctx_extract seed_read isort zq_zero_share zq_sum_shares ctx_zero_share.
